@@ -11,6 +11,9 @@ mod k_crash;
 mod k_val;
 mod k_hist;
 mod k_histf;
+mod k_fop;
+mod k_threads;
+mod k_valdiff;
 mod shrink;
 mod sym;
 
@@ -36,6 +39,9 @@ fn run_line(line: &str) -> String {
         "valop" => k_val::run(&f[1..]),
         "hist" => k_hist::run(&f[1..]),
         "histf" => k_histf::run(&f[1..]),
+        "fop" => k_fop::run(&f[1..]),
+        "threads" => k_threads::run(&f[1..]),
+        "valdiff" => k_valdiff::run(&f[1..]),
         "order" => k_order::run_order(&f[1..]),
         "track" => k_order::run_track(&f[1..]),
         _ => "BADKIND".into(),
@@ -73,6 +79,10 @@ fn main() {
                     "valop" => k_val::gen(&mut rng, tier, i, &mut stats),
                     "hist" => k_hist::gen(&mut rng, tier, i, &mut stats, profile),
                     "histf" => k_histf::gen(&mut rng, tier, i, &mut stats, profile),
+                    "fop" => k_fop::gen(&mut rng, tier, i, &mut stats),
+                    "threads" => k_threads::gen(&mut rng, tier, i, &mut stats),
+                    "valdiff" => k_valdiff::gen(&mut rng, tier, i, &mut stats),
+                    "fopx" => k_fop::gen_exhaustive(i + offset),
                     "valopx" => k_val::gen_exhaustive(i + offset),
                     "order" => k_order::gen(&mut rng, tier, i, &mut stats),
                     "orderx" => k_order::gen_exhaustive(i),
@@ -117,10 +127,15 @@ fn main() {
             let code = k_crash::stack_child(&args[2], args[3].parse().unwrap(), &args[4]);
             std::process::exit(code);
         }
+        "threadchild" => {
+            let code = k_threads::child(args[2].parse().unwrap(), args[3].parse().unwrap());
+            std::process::exit(code);
+        }
         "count" => {
             // number of cases of an exhaustive kind
             match args[2].as_str() {
                 "valopx" => println!("{}", k_val::n_exhaustive()),
+                "fopx" => println!("{}", k_fop::n_exhaustive()),
                 _ => println!("0"),
             }
         }
